@@ -81,10 +81,47 @@ class StmtMixin:
         if m is None:
             raise Untranslatable(f"statement {type(s).__name__} at line {s.lineno}")
         n0 = len(fr.pending)
-        outs = m(s, st, fr)
+        root = getattr(fr, "outer_root", fr)
+        allow = bool(fr.contract is not None and getattr(fr.contract, "opts", {}).get("abstract")) and fr.kind == "code"
+        if not allow:
+            outs = m(s, st, fr)
+        else:
+            backup = st.copy()
+            n_ob = len(self.obligations)
+            try:
+                outs = m(s, st, fr)
+            except Untranslatable as e:
+                del self.obligations[n_ob:]
+                del fr.pending[n0:]
+                st.guards, st.facts, st.env, st.heap, st.eff, st.epoch = backup.guards, backup.facts, backup.env, backup.heap, backup.eff, backup.epoch
+                outs = self.abstract_stmt(s, st, fr, str(e))
         extra = fr.pending[n0:]
         del fr.pending[n0:]
         return list(outs) + extra
+
+    def abstract_stmt(self, s, st, fr, why):
+        """Over-approximate an untranslatable statement: havoc everything it may assign; if it calls anything, havoc the
+        whole heap; if the function declares `raises *`, it may also raise.  Listed in the evidence, never silent."""
+        import hashlib
+        text = ast.unparse(s)
+        fr.abstracted.append({"line": s.lineno, "stmt": text[:160], "why": why[:160], "hash": hashlib.sha256(text.encode()).hexdigest()[:12]})
+        has_call = any(isinstance(n, ast.Call) for n in ast.walk(s))
+        if any(isinstance(n, (ast.Return, ast.Break, ast.Continue, ast.Yield, ast.YieldFrom)) for n in ast.walk(s)):
+            raise Untranslatable(f"cannot abstract a statement with control flow: {why}")
+        for n in assigned_names([s]):
+            st.env[n] = self.fresh_sv("abs_" + n, fr.contract.sorts.get(n, "any") if fr.contract else "any")
+        if has_call:
+            st.heap = {}
+            st.epoch = next(self.fresh_n) + 1000
+            if self.block_has_effects([s]):
+                st.eff = self.fresh("eff", z3.IntSort())
+        else:
+            for a in assigned_attrs([s]):
+                st.heap[a] = self.fresh(f"H_{a}", z3.ArraySort(self.voc.Val, self.voc.Val))
+        outs = [Outcome("normal", st)]
+        if has_call and self.exc_is_declared(fr, "AnyError"):
+            outs.append(Outcome("raise", st.copy(), exc="AnyError"))
+        return outs
 
     # ------------------------------------------------------------------ simple statements
     def st_Expr(self, s, st, fr):
@@ -402,7 +439,7 @@ class StmtMixin:
                 env["_seq"] = seq
             for k, x in pre_env.items():
                 env["pre_" + k] = x
-            tmp = St(state.guards, state.facts, env, state.heap, state.eff)
+            tmp = St(state.guards, state.facts, env, state.heap, state.eff, state.epoch)
             out = []
             for cl in inv.clauses:
                 out.append((cl.name, self.eval_clause(cl, tmp, spec_fr)))
